@@ -225,6 +225,11 @@ theorem sumRat_append (a b : List Rat) : sumRat (a ++ b) = sumRat a + sumRat b :
 /-- offset of sublist `j` inside the flattened list -/
 def offset {α} (L : List (List α)) (j : Nat) : Nat := ((L.take j).map List.length).sum
 
+theorem cumul_length (ls : List Nat) (acc : Nat) : (cumul acc ls).length = ls.length + 1 := by
+  induction ls generalizing acc with
+  | nil => simp [cumul]
+  | cons l r ih => simp [cumul, ih]
+
 theorem cumul_getD (ls : List Nat) (acc j : Nat) (hj : j ≤ ls.length) :
     (cumul acc ls).getD j 0 = acc + (ls.take j).sum := by
   induction ls generalizing acc j with
